@@ -888,7 +888,7 @@ func (e *Exec) GenOp(r *rand.Rand, p Profile) []string {
 			if v := e.pickLive(r); v != 0 && v != u {
 				if f, ok := e.spec.live[v]; ok && !e.spec.off {
 					f.U = v
-					return append(append([]string{"ins " + f.String()}, out...), "control")
+					return append(out, "ins "+f.String(), "control")
 				}
 			}
 		}
